@@ -78,8 +78,11 @@ Inductive c12case :=
 | CThumbIn (k : kind) (d : kd) (expect : res kd)
 (* key.ensure_kid(); key.dict_value *)
 | CEnsureKid (k : kind) (d : kd) (thumbs : list (kd * str)) (expect : res kd)
-(* alg.prepare_ephemeral_key(recipient) with recipient.ephemeral_key given: header written *)
-| CEpk (rk : kind) (eph : kind * bool * kd) (hdr : kd) (expect : res kd)
+(* alg.prepare_ephemeral_key(recipient): [eph] = recipient.ephemeral_key before the call,
+   [generated] = its _ephemeral_key_generated mark, [fresh] = the key generate_key returned
+   during the call (any key when none was generated); expect = header written *)
+| CEpk (rk : kind) (eph : option (kind * bool * kd)) (generated : bool) (fresh : kind * bool * kd)
+       (hdr : kd) (expect : res kd)
 (* key.as_bytes(encoding, private, password): which native export happened *)
 | CAsBytes (raw_private : bool) (enc : encoding) (private : pv) (pw : bool) (expect : res export)
 (* registry flags seen through the live class: (name, bool(private), required) *)
@@ -100,10 +103,10 @@ Definition c12_out (c : c12case) : res (list kd) + res export + list (str * bool
       inl (inl (keyset_as_dict (table_H t) (map mk_key keys) private params))
   | CThumbIn k d _ => inl (inl (do o <- thumb_input (value_registry k) d; Ok [o]))
   | CEnsureKid k d t _ => inl (inl (do o <- ensure_kid (table_H t) (value_registry k) d; Ok [o]))
-  | CEpk rk eph hdr _ =>
-      inl (inl (do r <- prepare_ephemeral_key (fun k => k)
+  | CEpk rk eph g fresh hdr _ =>
+      inl (inl (do r <- prepare_ephemeral_key (fun _ => mk_key fresh)
                           {| k_kind := rk; k_raw_private := true; k_dict := [] |}
-                          (Some (mk_key eph)) hdr;
+                          (option_map mk_key eph) g hdr;
                 Ok [snd r]))
   | CAsBytes rp enc private pw _ => inl (inr (as_bytes_kind rp enc private pw))
   | CFlags k _ => inr (reg_flags (value_registry k))
@@ -116,7 +119,7 @@ Definition c12_check (c : c12case) : bool :=
   | CKeySet _ _ _ _ e, inl (inl r) => res_eqb (list_eqb kd_eqb) r e
   | CThumbIn _ _ e, inl (inl r) => res_eqb (list_eqb kd_eqb) r (do o <- e; Ok [o])
   | CEnsureKid _ _ _ e, inl (inl r) => res_eqb (list_eqb kd_eqb) r (do o <- e; Ok [o])
-  | CEpk _ _ _ e, inl (inl r) => res_eqb (list_eqb kd_eqb) r (do o <- e; Ok [o])
+  | CEpk _ _ _ _ _ e, inl (inl r) => res_eqb (list_eqb kd_eqb) r (do o <- e; Ok [o])
   | CAsBytes _ _ _ _ e, inl (inr r) => res_eqb export_eqb r e
   | CFlags _ f, inr g => flags_eqb g f
   | _, _ => false
